@@ -233,6 +233,8 @@ def corpus_cases():
                      files={"db_long.dat": b"SOLUTION_SPECIES\nMn+2 + 2 NO3- = Mn(NO3)2" + b" a" * 200 + b"\n"}))
     add("spread-unnumbered-row-then-reload", "SOLUTION_SPREAD\nNumber\tpH\nx\t7\nEND\n")                     # listed key asan-heap-use-after-free:clear-prep
     add("immediate-for-in-user-punch", "SOLUTION\nSELECTED_OUTPUT\nUSER_PUNCH\nFOR i = 1 TO 3\n10 PUNCH 1\nEND\n")   # listed key …clearloops-PBasic::cmdnew
+    add("spread-negative-number-row", "SOLUTION_SPREAD\nNumber\tpH\tNa\tCl\tCa\n-4\t6.5\t1\t1\t1\n")     # ad53b668
+    add("spread-unclassifiable-token", "SPREAD_SOLUTION\n+ 1;5\n")                                     # 7cbd5ebd
     add("surface-raw-bad-enum", "SURFACE_RAW\n-sites_units -2147483648\n")
     sit, iso, core = (str(F.DBDIR / n) for n in ("sit.dat", "iso.dat", "core10.dat"))
     C.append(mk_case("corpus", "unread-input-then-reload-no-END-db", [("run", b"SOLUTION 1\n -bogus\nEND\nSOLUTION 2\n Na 1\nEND\n")], sw=[("errstr", 1)],
